@@ -216,6 +216,9 @@ struct Run {
     faulted: bool, window: bool, stalled: bool, next_fence: u64,
     sub: Option<tokio::sync::mpsc::UnboundedReceiver<repe::Message>>, nrecv: u64, subq: Vec<String>, sub_eos: bool,
     notes: Vec<String>, resid: Vec<String>, frames_sent: u64, got_base: u64,
+    /// `keep=1`: after a fault that leaves the connection open the peer KEEPS it open (and keeps not reading)
+    /// while the later calls are made; it is closed only at the end of the case
+    keep: bool,
 }
 
 impl Run {
@@ -460,7 +463,7 @@ impl Run {
                 let guard_race = self.prefix == "aclient" && self.stalled;
                 if guard_race { let _ = wait_hits(&self.p("fail.after_shutdown"), before + 1, Duration::from_millis(300)); }
                 else if !wait_hits(&self.p("fail.after_shutdown"), before + 1, WATCHDOG) { self.note("reader-not-failed"); }
-                self.srv.close(false);
+                if !self.keep { self.srv.close(false); }
             }
             "P" => {
                 arm(&self.p("fail.after_shutdown"));
@@ -472,7 +475,7 @@ impl Run {
                 disarm(); release();
                 self.window = false; self.faulted = true;
                 self.wait_all();
-                self.srv.close(false);
+                if !self.keep { self.srv.close(false); }
             }
             "G" => {
                 let Cl::A(cl) = self.cl.clone() else { self.note("G-not-async"); return };
@@ -566,7 +569,7 @@ fn run_case(line: &str) -> String {
     let prefix = match kind.as_str() { "tcp" => "client", "atcp" => "aclient", _ => "wsclient" };
     let (tx, rx) = mpsc::channel();
     let mut run = Run { prefix, cl, srv, tx, rx, started: vec![], done: HashMap::new(), ids: HashMap::new(), tasks: HashMap::new(),
-        faulted: false, window: false, stalled: false, next_fence: 0, sub: None, nrecv: 0, subq: vec![], sub_eos: false, notes: vec![], resid: vec![], frames_sent: 0, got_base: 0 };
+        faulted: false, window: false, stalled: false, next_fence: 0, sub: None, nrecv: 0, subq: vec![], sub_eos: false, notes: vec![], resid: vec![], frames_sent: 0, got_base: 0, keep: f.get("keep").map(|s| s == "1").unwrap_or(false) };
     if want_sub { if let Cl::Ws(w) = &run.cl { match w.subscribe_notifies() { Ok(r) => run.sub = Some(r), Err(_) => run.note("subscribe-failed") } } }
     // `ham=1` (async client): from the moment call 0 is in flight until the first residue probe, two
     // tasks keep forwarding a message with call 0's id - each is refused at once as a duplicate
@@ -870,6 +873,24 @@ fn gen_cases(seed: u64, thorough: bool) -> Vec<String> {
                     if op == "P" { g.fault("Z", ""); g.start("T"); }
                     cases.push(g.line());
                 }
+            }
+        }
+    }
+
+    // D''. the stalled writer, a fault that leaves the connection open, and a peer that KEEPS it open
+    //      and unread while the later calls are made (`keep=1`): they too return an error promptly -
+    //      whatever still holds the writer (the WebSocket client's closing handshake is stuck behind
+    //      the full socket) must not be waited for.  Found as defect D12 (section 12.2).
+    for kind in kinds {
+        let mut fs = vec!["magic", "lenmis", "big"]; if kind == "ws" { fs.push("text"); }
+        for fk in fs {
+            for a in 0..2 {
+                let mut g = Gen::new(kind, false);
+                if a == 1 { g.start("S"); }
+                g.start("W");
+                g.fault("F", fk);
+                g.start("S"); g.start("T"); g.start("X");
+                cases.push(format!("{} keep=1", g.line()));
             }
         }
     }
